@@ -3,6 +3,7 @@ package verify
 import (
 	"github.com/google/go-tdx-guest/pcs"
 	vp "github.com/google/go-tdx-guest/zzvp"
+	"github.com/google/go-tdx-guest/zzvp/q"
 )
 
 func freshOpts(w *collateralWorld, coll, rev bool, now *TimeSet) *Options {
@@ -154,4 +155,24 @@ func H12f_ReconfiguredOptions() {
 	if rev && !coll {
 		vp.Assert("revocation-without-collateral-fails-also-on-a-used-options-value", errShared != nil)
 	}
+}
+
+// H12g: histories through the PROCESS. A quote's verdict does not depend on which other quotes
+// were verified before it (fresh options each time): the same quote, verified before and after
+// an unrelated quote whose certificates may carry the same names and keys, gets the same verdict.
+func H12g_VerdictIndependentOfOtherQuotes() {
+	w1 := mkPKI(0, nil)
+	w2 := mkPKI(0, nil)
+	root := mkCert("configured")
+	pool := m_NewCertPool()
+	m_AddCert(pool, root)
+	quote1, quote2 := q.Valid("q1_", q.Shape{AuthLen: 0, Chain: w1.chainBytes}), q.Valid("q2_", q.Shape{AuthLen: 0, Chain: w2.chainBytes})
+	now := symTimeSet("t")
+	before := TdxQuote(quote2, &Options{TrustedRoots: pool, Now: now})
+	other := TdxQuote(quote1, &Options{TrustedRoots: pool, Now: now})
+	after := TdxQuote(quote2, &Options{TrustedRoots: pool, Now: now})
+	vp.Reach("other-quote-accepted", other == nil)
+	vp.Reach("quote-accepted", before == nil)
+	vp.Reach("quote-rejected", before != nil)
+	vp.Assert("same-verdict-before-and-after-another-quote", (before == nil) == (after == nil))
 }
